@@ -38,6 +38,8 @@ mod sim;
 mod world;
 mod blocksim;
 mod checks;
+mod driversim;
+mod e2e;
 mod checks_pure;
 mod pure;
 mod cli;
